@@ -133,7 +133,7 @@ def ack_body(text, d):
     for s in segs:
         # a copied value that contains the source's component separator cannot be spelled the same in both
         # encodings; the ack replaces its own delimiters by blanks, so compare modulo that replacement
-        out.append([s[0]] + [[x.replace(d[2], ' ') for x in comps] for comps in s[1:]])
+        out.append([s[0]] + [[x.replace(d[2], ' ').strip(' ') for x in comps] for comps in s[1:]])      # (a replaced delimiter at either end is dropped)
     return out
 
 
